@@ -280,6 +280,12 @@ var solvers = []solverDef{
 	{"z3-new-nomb", func(t int) []string {
 		return limited(t, "z3-new", "smt.mbqi=false", fmt.Sprintf("-T:%d", 8*t), "-smt2")
 	}},
+	// without z3's automatic choice of tactic: for some quantified goals the
+	// choice depends on irrelevant ground facts being present, and the plain
+	// SMT core closes them at once
+	{"z3-new-noauto", func(t int) []string {
+		return limited(t, "z3-new", "smt.auto_config=false", fmt.Sprintf("-T:%d", 8*t), "-smt2")
+	}},
 	{"cvc5", func(t int) []string {
 		return limited(t, "cvc5", fmt.Sprintf("--tlimit=%d", 8*t*1000), "--lang=smt2", "--produce-models")
 	}},
